@@ -6,6 +6,9 @@ CHECK = {
         unit("keysutil", "keysutil", ["keysutil/c17_policy_test.go"], "^TestVerif_C17_Policy$",
              quick={"checks": 1200, "shards": 1, "cap": 600, "steps": 30},
              thorough={"checks": 2500, "shards": 16, "cap": 1800, "steps": 40}),
+        unit("concurrent-cold-cache", "keysutil", ["keysutil/c17_policy_test.go", "keysutil/c17_conc_test.go"], "^TestVerif_C17_ConcurrentColdCache$",
+             quick={"checks": 600, "shards": 1, "cap": 600},
+             thorough={"checks": 4000, "shards": 16, "cap": 1800}),
         unit("transit-api", "transit", ["transit/c17_api_test.go"], "^TestVerif_C17_API$",
              quick={"checks": 800, "shards": 1, "cap": 600, "steps": 25},
              thorough={"checks": 1500, "shards": 16, "cap": 1800, "steps": 35}),
